@@ -16,6 +16,7 @@ import LyModel.Sib.Drv
 import LyModel.Diff.Drv
 import LyModel.Ctx.Drv
 import LyModel.Merge.Drv
+import LyModel.Valid.Drv
 /-! Dispatch table of the line-protocol driver: one handler per component. -/
 namespace LyModel.Drv
 
@@ -39,6 +40,7 @@ def dispatch (comp op : String) (args : List String) : String :=
   | "diff" => Diff.Drv.handle op args
   | "ctx" => Ctx.Drv.handle op args
   | "merge" => Merge.Drv.handle op args
+  | "valid" => Valid.Drv.handle op args
   | _ => "err NoSuchComponent"
 
 end LyModel.Drv
